@@ -6,6 +6,8 @@ whether both outcomes are feasible under the current path condition and, if
 so, forks.  Forking is realised by re-execution with a decision prefix (DART
 style).  See /verif/DESIGN.md section 1.
 """
+import os
+import sys
 import fractions
 import time
 
@@ -163,6 +165,9 @@ class PathOutcome:
         self.outputs = outputs  # structure with Sym leaves (expected real outputs)
         self.kind = kind  # 'assert' | 'legit_exc' | 'exc' (candidate violation)
         self.note = note
+        if kind == "exc" and os.environ.get("VERIF_TRACE"):
+            import traceback
+            sys.stderr.write(traceback.format_exc())
 
 
 def explore_job(fn, prefix, max_paths=200, max_seconds=20.0, on_path=None):
